@@ -41,6 +41,9 @@ type CleanCase struct {
 	// BadGlob: the first task also depends on "src/[*.c", a pattern the glob syntax rejects. spok may
 	// refuse to clean at all; if it reports success, everything designated is gone as usual.
 	BadGlob bool `json:"bad_glob,omitempty"`
+	// FullStdout: standard output is /dev/full: spok cannot report what it removes; what it removes
+	// (everything designated, or, if it gives up, nothing else) is unaffected by that
+	FullStdout bool `json:"full_stdout,omitempty"`
 }
 
 var cleanDepPool = []string{"build/*.o", "**/*.tmp", "src/main.c", "bin/app", "dist/**/*.js", "*.tmp", "b*/*", "README.md", "a/b/c.out"}
@@ -52,6 +55,8 @@ var cleanTreePool = []string{
 	"gen/report[1].txt", "gen/report1.txt", "gen/q?.txt", "gen/qa.txt",
 	// symbolic links ("name->target"): an output that is a link designates the link, not its target
 	"latest->bin", "current.txt->README.md",
+	// hidden entries: never matched by a glob, and they hide nothing that sorts after them
+	".git/config", ".a.tmp", ".cache.d/x.tmp", "z.tmp",
 }
 var cleanLiteralPool = []string{"bin/app", "dist", "a/b/c.out", "missing/file", "", ".", "./", "..", "../..", "spokfile", "bin", "src/main.c", "emptyd", "bin/app.sha256", "build", "build.log", "dist.tar", "gen/report[1].txt", "gen/q?.txt", "latest", "current.txt"}
 var cleanNamedPool = []NamedOut{
@@ -105,6 +110,7 @@ func genCleanBody(t *rapid.T) CleanCase {
 	c.PreCache = rapid.Bool().Draw(t, "pre_cache")
 	c.NTasks = rapid.IntRange(1, 3).Draw(t, "ntasks")
 	c.BadGlob = rapid.IntRange(0, 7).Draw(t, "bad_glob") == 0
+	c.FullStdout = rapid.IntRange(0, 7).Draw(t, "full_stdout") == 0
 	if rapid.IntRange(0, 2).Draw(t, "with_deps") == 0 {
 		c.Deps = rapid.SliceOfN(rapid.SampledFrom(cleanDepPool), 1, 3).Draw(t, "deps")
 	}
@@ -265,6 +271,7 @@ func execClean(s *ev.Shard, b *sandbox.Box, c CleanCase) *rp.Fail {
 	if err != nil {
 		return &rp.Fail{Sig: "harness", Msg: err.Error()}
 	}
+	b.FullStdout = c.FullStdout
 	res := b.Run(b.Proj, []string{"LOG=" + logPath}, runTimeout, "--clean")
 	if res.TimedOut {
 		return &rp.Fail{Sig: "harness", Msg: "spok --clean timed out"}
@@ -350,7 +357,10 @@ func execClean(s *ev.Shard, b *sandbox.Box, c CleanCase) *rp.Fail {
 		if _, still := after[cacheRel]; still {
 			return &rp.Fail{Sig: "cache-not-removed", Size: size, Msg: fmt.Sprintf("%s: the cache directory still exists after a successful --clean", desc)}
 		}
-	} else if !unsafe && !c.BadGlob {
+	} else if c.FullStdout && len(changes) > 0 {
+		// it gave up because it could not print, after having removed some of what it was to remove
+		return &rp.Fail{Sig: "clean-stopped-half-way", Size: size, Msg: fmt.Sprintf("%s (standard output was /dev/full): spok failed after removing only part of the declared outputs", desc)}
+	} else if !unsafe && !c.BadGlob && !c.FullStdout {
 		return &rp.Fail{Sig: "clean-failed", Size: size, Msg: fmt.Sprintf("%s: every declared output is inside the project, yet --clean failed", desc)}
 	}
 	if s != nil {
